@@ -52,12 +52,16 @@ fn register_receiver(rx: Receiver<CollectCommand>) {
 }
 
 fn send_command(cmd: CollectCommand) {
+    #[cfg(fastrace_verif)]
+    crate::verif::hook(|| verif_impl::describe(&cmd, false));
     COMMAND_SENDER
         .try_with(|sender| unsafe { (*sender.get()).send(cmd).ok() })
         .ok();
 }
 
 fn force_send_command(cmd: CollectCommand) {
+    #[cfg(fastrace_verif)]
+    crate::verif::hook(|| verif_impl::describe(&cmd, true));
     COMMAND_SENDER
         .try_with(|sender| unsafe { (*sender.get()).force_send(cmd) })
         .ok();
@@ -265,8 +269,19 @@ impl GlobalCollector {
 
         {
             SPSC_RXS.lock().retain_mut(|rx| {
+                #[cfg(fastrace_verif)]
+                crate::verif::hook(|| crate::verif::Site::BeforeDrain);
                 loop {
                     match rx.try_recv() {
+                        #[cfg(fastrace_verif)]
+                        Ok(Some(ref cmd))
+                            if {
+                                crate::verif::hook(|| verif_impl::describe_received(cmd));
+                                false
+                            } =>
+                        {
+                            unreachable!()
+                        }
                         Ok(Some(CollectCommand::StartCollect(cmd))) => start_collects.push(cmd),
                         Ok(Some(CollectCommand::DropCollect(cmd))) => drop_collects.push(cmd),
                         Ok(Some(CollectCommand::CommitCollect(cmd))) => commit_collects.push(cmd),
@@ -631,5 +646,72 @@ fn mount_danglings(records: &mut [SpanRecord], danglings: &mut HashMap<SpanId, V
                 }
             }
         }
+    }
+}
+
+#[cfg(fastrace_verif)]
+pub mod verif_impl {
+    use super::*;
+    use crate::verif::Site;
+
+    pub(crate) fn describe(cmd: &CollectCommand, force: bool) -> Site {
+        let (kind, ids) = match cmd {
+            CollectCommand::StartCollect(c) => ("start", vec![c.collect_id]),
+            CollectCommand::DropCollect(c) => ("drop", vec![c.collect_id]),
+            CollectCommand::CommitCollect(c) => ("commit", vec![c.collect_id]),
+            CollectCommand::SubmitSpans(c) => ("submit", c.collect_token.iter().map(|i| i.collect_id).collect()),
+        };
+        Site::Command { kind, ids, force }
+    }
+
+    pub(crate) fn describe_received(cmd: &CollectCommand) -> Site {
+        match describe(cmd, false) {
+            Site::Command { kind, ids, .. } => Site::Received { kind, ids },
+            other => other,
+        }
+    }
+
+    #[derive(Debug, Clone, Default, PartialEq, Eq)]
+    pub struct CollectorStats {
+        pub active_collectors: usize,
+        pub buffered_span_sets: usize,
+        pub danglings: usize,
+        pub registered_receivers: usize,
+    }
+
+    pub fn install_collector(reporter: impl Reporter, config: Config) {
+        *GLOBAL_COLLECTOR.lock() = Some(GlobalCollector {
+            config,
+            reporter: Some(Box::new(reporter)),
+            active_collectors: HashMap::new(),
+            start_collects: vec![],
+            drop_collects: vec![],
+            commit_collects: vec![],
+            submit_spans: vec![],
+            stale_spans: vec![],
+        });
+        REPORTER_READY.store(true, Ordering::Relaxed);
+    }
+
+    pub fn run_collector_cycle() {
+        if let Some(c) = GLOBAL_COLLECTOR.lock().as_mut() {
+            c.handle_commands();
+        }
+    }
+
+    pub fn touch_sender() {
+        let _ = COMMAND_SENDER.try_with(|_| ());
+    }
+
+    pub fn collector_stats() -> CollectorStats {
+        let g = GLOBAL_COLLECTOR.lock();
+        let mut s = CollectorStats::default();
+        if let Some(c) = g.as_ref() {
+            s.active_collectors = c.active_collectors.len();
+            s.buffered_span_sets = c.active_collectors.values().map(|a| a.span_collections.len()).sum();
+            s.danglings = c.active_collectors.values().map(|a| a.danglings.values().map(|v| v.len()).sum::<usize>()).sum();
+        }
+        s.registered_receivers = SPSC_RXS.lock().len();
+        s
     }
 }
